@@ -165,6 +165,7 @@ type Machine struct {
 	patterns      map[string]*regexp.Regexp
 	patternOrder  []string
 	jnTexts       map[*smt.Term]*Node
+	initDone      bool
 	axioms        map[*smt.Term]bool
 	extraModel    []*smt.Term
 	Env           map[string]string
@@ -265,6 +266,7 @@ func (m *Machine) runPath(prefix []decision, body func(m *Machine) Value) (res *
 	m.sharedWrites = nil
 	m.uncertain = false
 	m.initStarted = false
+	m.initDone = false
 	m.Scratch = map[any]any{}
 	res = &PathResult{}
 	defer func() {
@@ -587,6 +589,7 @@ func (m *Machine) global(g *ssa.Global) *Value {
 			for _, cell := range m.globals {
 				m.MarkShared(cell)
 			}
+			m.initDone = true
 		}
 		if p, ok := m.globals[g]; ok {
 			return p
@@ -602,6 +605,10 @@ func (m *Machine) global(g *ssa.Global) *Value {
 	cell := zero(deref(g.Type()))
 	p := &cell
 	m.globals[g] = p
+	if g.Pkg == m.P.Pkg && m.initDone {
+		// a package-level variable without an initialiser (first touched now): shared between calls too
+		m.MarkShared(p)
+	}
 	return p
 }
 
